@@ -151,6 +151,11 @@ PROPS["C01"]["theorem_modules"] = PROPS["C01"]["theorem_modules"] + ["DecProofs.
 for _pid in ("C06", "C08", "C11"):
     PROPS[_pid]["theorem_modules"] = PROPS[_pid]["theorem_modules"] + ["DecProofs.Properties.SourceLevel2"]
 
+PROPS["C01"]["theorem_modules"] = PROPS["C01"]["theorem_modules"] + ["DecProofs.Properties.C01GenDivFinal", "DecProofs.Properties.C01GenDivClosed"]
+PROPS["C07"]["theorem_modules"] = PROPS["C07"]["theorem_modules"] + ["DecProofs.Properties.C07GenBinConv"]
+for _pid in ("C01", "C08", "C09", "C11"):
+    PROPS[_pid]["theorem_modules"] = PROPS[_pid]["theorem_modules"] + ["DecProofs.Properties.SourceLevel3"]
+
 # secondary build configuration of C02 (thorough tier): the tininess-after-rounding cargo feature
 PROPS["C02"]["feature_configs"] = [{"feature": "tiny_after", "judge_tiny_after": True}]
 
